@@ -164,6 +164,8 @@ def _check_goal(it, goal, label, inputs, hyps=None):
 def run_path(c, decisions, contracts, world, cfg) -> PathResult:
     pr = PathResult()
     it = Interp(world, decisions, contracts, solver_timeout_ms=cfg.get("timeout_ms", 10000), verifying=c.key)
+    if getattr(c, "feas_timeout_ms", None):
+        it.FEAS_TIMEOUT_MS = c.feas_timeout_ms  # feasibility budget per branch (unknown = feasible: only the cost changes)
     it.variant_label = cfg.get("variant_label")
     it.already_refuted = cfg.get("already_refuted", set())
     if c.timeout_ms:
